@@ -63,6 +63,24 @@ def check_struct(chk, prog, path, want_deser=True):
         ok = len(impls) == 1 and impls[0]["derived"]
         chk.ob("R-LAYOUT", path, ok, "Deserialize impls: %s (must be exactly one, derived — field order then is declaration order)" %
                [(i["derived"]) for i in impls], where, key="derive")
+    if want_deser:
+        # what the derive actually generated: visit_seq asks the sequence for exactly one element per declared field, of that
+        # field's type, in declaration order (a skipped, defaulted or flattened field shows up here, whatever attribute caused it)
+        from .ir import callee_of
+        vs = [f for p_, f in prog.fns.items() if p_.endswith("::visit_seq") and ("<impl serde_core::de::Deserialize<'de> for %s>" % path in p_
+                                                                               or "<impl serde::de::Deserialize<'de> for %s>" % path in p_)]
+        if len(vs) != 1:
+            chk.ob("R-LAYOUT", path, False, "derived visit_seq bodies found for the struct: %d (one expected)" % len(vs), where, key="visit-seq")
+        else:
+            order = []
+            for b in vs[0].rpo():
+                t = vs[0].term(b)
+                if t and t["t"] == "call" and callee_of(t).endswith("SeqAccess::next_element"):
+                    tys = [x["d"]["s"] for x in t.get("targs", [])]
+                    order.append(tys[-1] if tys else "?")
+            decl = [f["ty"]["s"] for f in fields]
+            chk.ob("R-LAYOUT", path, order == decl, "the derived decoder reads one element per field, in order (%d reads for %d fields)" % (len(order), len(decl)) if order == decl else
+                   "the derived decoder reads %s but the struct declares %s" % (order[:40], decl[:40]), where, key="visit-seq")
     if sizeof_used:
         chk.ob("R-LAYOUT", path, adt.get("size") == total and adt.get("repr_c"),
                "size_of::<%s>() is used as a wire length: layout size %s (repr(C)=%s) must equal wire size %d" % (short, adt.get("size"), adt.get("repr_c"), total),
